@@ -64,6 +64,8 @@ CALLS = [
     # pretty-printing with a two-token struct format, then the same format string in unpack / pack
     ('a-pp-struct', "(lambda o: (bitstring.Array('<h', [1, 2]).pp('<hH', stream=o), len(o.getvalue()) > 0)[1])(__import__('io').StringIO())"),
     ('u-struct2', "bitstring.Bits('0x0f3a0102').unpack('<hH')"), ('p-struct2', "bitstring.pack('<hH', -2, 7)"),
+    # whitespace is removed from a token string before parsing - also from inside a dtype name
+    ('c-split-name-e5m2', "bitstring.Bits('e5m2m xfp=1e6')"), ('c-split-name-e4m3', "bitstring.BitArray('e4 m3mxfp = 1000')"),
     ('a-trail2', "bitstring.Array('uint4', [1], trailing_bits='0b1')"), ('c-0a0b', "bitstring.Bits('0x0a0b')"), ('c-0b1', "bitstring.ConstBitStream('0b1')"),
 ]
 CALL_SRC = dict(CALLS)
